@@ -67,7 +67,10 @@ def render(sp):
     zeros = ', '.join(['k'] + ['0'] * (np_ - 1))
     if sp.get('derived'):
         zeros = ', '.join((['k', 'k+1'] + ['0'] * (np_ - 2))[:np_])
-    out = [HEADER]
+    hdr = HEADER
+    if 'make_key_fn' in sp['tprops']:
+        hdr = hdr.replace('%}\n', 'static parsec_key_t my_key(const parsec_taskpool_t *tp, const parsec_assignment_t *locals)\n{ (void)tp; return (parsec_key_t)locals[0].value; }\n%}\n', 1)
+    out = [hdr]
     peers = []
     L = []
     L.append('S(%s)%s' % (', '.join(params), (' [%s]' % sp['tprops']) if sp['tprops'] else ''))
